@@ -146,6 +146,34 @@ mod vk_iter {
         let _ = len;
     }
 
+    // @harness name=iter_chunk_huge props=C16,C03,C01 kind=bounded bound="chunk size anywhere in 3..=usize::MAX on a source with <= 2 remaining items; fruitless polls <= 2"
+    #[kani::proof]
+    #[kani::unwind(18)]
+    #[kani::stub(std::sync::atomic::Atomic::<usize>::fetch_add, a_faa)]
+    #[kani::stub(std::sync::atomic::Atomic::<usize>::load, a_load)]
+    #[kani::stub(std::sync::atomic::Atomic::<usize>::store, a_store)]
+    #[kani::stub(std::sync::atomic::Atomic::<bool>::load, b_load)]
+    #[kani::stub(std::sync::atomic::Atomic::<bool>::store, b_store)]
+    fn iter_chunk_huge() {
+        let (it, k, len) = mk();
+        locs(&it);
+        kani::assume(len - k <= 2);
+        let n: usize = kani::any();
+        kani::assume(n >= 3);
+        let r = it.next_chunk(n);
+        let (b, admitted, items, ended) = chk_protocol(n, false, false);
+        kani::cover!(n == usize::MAX && r.is_some(), "chunk size usize::MAX delivers the rest");
+        match r {
+            Some(mut c) => {
+                assert!(admitted && c.begin_idx == b, "[C02 C03 C16 iter-begin] begin index is the ticket");
+                let l = c.values.len();
+                assert!(l == items && l >= 1 && l == len - k && ended, "[C01 C03 C16 iter-huge-chunk] a chunk larger than the rest delivers exactly the rest of the source");
+                assert!(c.values.next() == Some(k), "[C01 C02 C16 iter-contents] items are delivered in source order");
+            }
+            None => assert!(items == 0, "[C01 C16 iter-none-lost] no item is taken from the wrapped iterator and then dropped"),
+        }
+    }
+
     // @harness name=iter_chunk_zero props=C16,C11 kind=bounded bound="fruitless polls <= 2"
     #[kani::proof]
     #[kani::unwind(18)]
